@@ -135,6 +135,7 @@ func (ab *AccessBarrier) doCleanup() {
 	defer iter.Close()
 
 	for iter.SeekFirst(); iter.Valid(); iter.Next() {
+		verifYield(VerifPtCleanLoop)
 		node := iter.GetNode()
 		bs := (*BarrierSession)(node.Item())
 		if bs.seqno != ab.freeSeqno+1 {
@@ -153,6 +154,7 @@ func (ab *AccessBarrier) Acquire() *BarrierSession {
 	if ab.active {
 	retry:
 		bs := (*BarrierSession)(atomic.LoadPointer(&ab.session))
+		verifYield(VerifPtAcqLoaded)
 		liveCount := atomic.AddInt32(bs.liveCount, 1)
 		if liveCount > barrierFlushOffset {
 			ab.Release(bs)
@@ -170,17 +172,21 @@ func (ab *AccessBarrier) Release(bs *BarrierSession) {
 	if ab.active {
 		liveCount := atomic.AddInt32(bs.liveCount, -1)
 		if liveCount == barrierFlushOffset {
+			verifYield(VerifPtRelZero)
 			buf := ab.freeq.MakeBuf()
 			defer ab.freeq.FreeBuf(buf)
 
 			// Accessors which entered a closed barrier session steps down automatically
 			// But, they may try to close an already closed session.
 			if atomic.AddInt32(&bs.closed, 1) == 1 {
+				verifYield(VerifPtRelLatched)
 				if !ab.freeq.Insert(unsafe.Pointer(bs), CompareBS, buf, &ab.freeq.Stats) {
 					panic("unable to insert barrier session into free list")
 				}
+				verifYield(VerifPtRelQueued)
 				if atomic.CompareAndSwapInt32(&ab.isDestructorRunning, 0, 1) {
 					ab.doCleanup()
+					verifYield(VerifPtCleanEnd)
 					atomic.CompareAndSwapInt32(&ab.isDestructorRunning, 1, 0)
 				}
 			}
@@ -198,6 +204,7 @@ func (ab *AccessBarrier) FlushSession(ref unsafe.Pointer) {
 		defer ab.Unlock()
 
 		bsPtr := atomic.LoadPointer(&ab.session)
+		verifYield(VerifPtFlushLoaded)
 		newBsPtr := unsafe.Pointer(newBarrierSession())
 		atomic.CompareAndSwapPointer(&ab.session, bsPtr, newBsPtr)
 		bs := (*BarrierSession)(bsPtr)
@@ -206,7 +213,9 @@ func (ab *AccessBarrier) FlushSession(ref unsafe.Pointer) {
 		bs.seqno = ab.activeSeqno
 		ab.numAllocated++
 
+		verifYield(VerifPtFlushSwapped)
 		atomic.AddInt32(bs.liveCount, barrierFlushOffset+1)
+		verifYield(VerifPtFlushAdded)
 		ab.Release(bs)
 	}
 }
